@@ -25,11 +25,14 @@ import (
 //	  transitions triples `s X t` separated by ';' (ParserTable.Transitions(s).Inputs()/Get)
 //	  cert        item sets `p d a p d a …` separated by ';' (ParserTable.States order)
 //	  flag        ParserTable.HasConflicts, 0 or 1
+//	  ord         (optional 7th section, ignored by the validator) all symbols in the order of their names,
+//	              so that a replay can rebuild a grammar whose names sort the same way
 //	  answer      `ok conflicts` / `ok clean` (impl: according to the real flag); the validator
 //	              answers `fail <reason>` when a check fails or its verdict differs from the flag.
 //
-// Replay of a case line: the grammar (with its precedences) is rebuilt through the lr1 API, the real
-// ConstructLALR runs on it and answers with ITS flag; the Lean side validates the recorded line.
+// Replay of a case line: the grammar (with its precedences, and names that sort like `ord`) is rebuilt
+// through the lr1 API, the real ConstructLALR of the CURRENT tree runs on it, and a FRESH case line is
+// emitted from its output (so a replay re-validates what the current tree produces for that grammar).
 
 func symCode(t lr1.Term) int {
 	switch t := t.(type) {
@@ -53,8 +56,9 @@ func transLine(t *lr1.ParserTable) string {
 }
 
 func conflictCaseLine(g *lr1.Grammar, t *lr1.ParserTable) string {
-	return fmt.Sprintf("lr.conflict_check %d %d | %s | %s | %s | %s | %d",
-		len(g.Terminals), len(g.Rules), grammarLine(g), fmtInfos(grammarInfos(g)), transLine(t), certLine(t), b2i(t.HasConflicts))
+	ord, _ := nameOrder(g)
+	return fmt.Sprintf("lr.conflict_check %d %d | %s | %s | %s | %s | %d | %s",
+		len(g.Terminals), len(g.Rules), grammarLine(g), fmtInfos(grammarInfos(g)), transLine(t), certLine(t), b2i(t.HasConflicts), joinInts(ord))
 }
 
 func conflictAnswer(t *lr1.ParserTable) string {
@@ -68,12 +72,21 @@ func conflictAnswer(t *lr1.ParserTable) string {
 func conflictRebuild(line string) (*lr1.Grammar, error) {
 	_, payload, _ := strings.Cut(line, " ")
 	secs := strings.Split(payload, "|")
-	if len(secs) != 6 {
-		return nil, fmt.Errorf("expected 6 sections")
+	if len(secs) != 6 && len(secs) != 7 {
+		return nil, fmt.Errorf("expected 6 or 7 sections")
 	}
 	g, err := gmDecode(strings.TrimSpace(secs[0]), secs[1])
 	if err != nil {
 		return nil, err
+	}
+	if len(secs) == 7 {
+		ord, err := gmInts(secs[6])
+		if err != nil {
+			return nil, err
+		}
+		if err := renameByOrder(g, ord); err != nil {
+			return nil, err
+		}
 	}
 	infos := strings.Split(secs[2], ";")
 	for i, p := range g.Prods {
@@ -146,21 +159,21 @@ func conflictJobs(c *Ctx) []cfJob {
 // conflictOracle is the oracle of family lalr (ops_lalr.go: independent canonical-LR(1)+merge
 // reference with the documented precedence rule) applied to this very run: verdict, and the whole
 // automaton item for item. "" = the reference agrees.
-func conflictOracle(fr *Front, flat string) string {
-	ref := newLalrRef(fr.Grammar)
+func conflictOracle(g *lr1.Grammar, t *lr1.ParserTable, flat string) string {
+	ref := newLalrRef(g)
 	a := ref.build()
 	if a.tooBig {
 		return ""
 	}
 	want, where := ref.conflict(a)
-	got := fr.Table.HasConflicts
+	got := t.HasConflicts
 	switch {
 	case got && !want:
 		return "C04: lox reports conflicts for a grammar whose LALR(1) automaton has none after the documented precedence rule | grammar: " + flat
 	case !got && want:
 		return "C04: lox accepts a grammar whose LALR(1) automaton keeps a conflict (" + where + ") | grammar: " + flat
 	}
-	if diff := compareAutomata(fr.Table, a); diff != "" {
+	if diff := compareAutomata(t, a); diff != "" {
 		return "C04: automaton differs from the LALR(1) automaton: " + diff + " | grammar: " + flat
 	}
 	return ""
@@ -174,15 +187,24 @@ func init() {
 					c.Emit(l, "bad-op")
 					continue
 				}
-				ans := guard(func() string {
-					g, err := conflictRebuild(l)
-					if err != nil {
-						return "bad-op"
-					}
-					return conflictAnswer(lr1.ConstructLALR(g))
+				g, err := conflictRebuild(l)
+				if err != nil {
+					c.Emit(l, "bad-op")
+					continue
+				}
+				line, ans, orc := l, "", ""
+				res := guard(func() string {
+					t := lr1.ConstructLALR(g)
+					line = conflictCaseLine(g, t)
+					ans = conflictAnswer(t)
+					orc = conflictOracle(g, t, "rebuilt from the replayed line: "+grammarLine(g))
+					return ""
 				})
+				if res != "" {
+					ans = res
+				}
 				c.Count("replayed")
-				c.Emit(l, ans)
+				c.EmitO(line, ans, orc)
 			}
 			return
 		}
@@ -203,7 +225,7 @@ func init() {
 			if c.Distinct(line) {
 				c.Count(j.tag + "-" + strings.TrimPrefix(conflictAnswer(fr.Table), "ok "))
 			}
-			c.EmitO(line, conflictAnswer(fr.Table), conflictOracle(fr, flat))
+			c.EmitO(line, conflictAnswer(fr.Table), conflictOracle(fr.Grammar, fr.Table, flat))
 		}
 	})
 }
